@@ -988,6 +988,9 @@ def frame_method(it, f, name, args, kwargs, node, fr):
     raise Unsupported(f"DataFrame.{name} is not modelled", node)
 
 
+_STR_METHODS = {n for n in dir(str) if not n.startswith("_")} - {"count", "index"}
+
+
 def val_method(it, v, name, args, kwargs, node, fr):
     it.record("call", "value." + name, [v] + args, dict(kwargs), node)
     if is_pyconst(v):
@@ -1077,7 +1080,7 @@ def val_method(it, v, name, args, kwargs, node, fr):
         return call_numpy(it, "numpy.argsort", "numpy", "argsort", [v], {}, node, fr)
     if name in ("str",):
         return Method(v, "str")
-    if name in ("lower", "upper", "strip", "format", "startswith", "endswith", "split", "replace", "zfill", "join"):
+    if name in _STR_METHODS:
         return Val(call("str." + name, v.term, *[to_term(a) for a in args]))
     if name in ("append", "extend", "add", "update"):
         return K(None)
